@@ -244,7 +244,11 @@ extern "C" int verif_case(const uint8_t *data, size_t size, struct verif_report 
 			size_t f = k.rep.find("F ");
 			if (f != std::string::npos && k.rep.find('\n', f) != std::string::npos) { k.reported_fail = true; k.reported_errno = atoi(k.rep.c_str() + f + 2); }
 			bool done = k.reported_fail || (k.connected && (!k.talk || k.rep.find("T ") != std::string::npos));
-			if (!k.dead) { int st; if (waitpid(k.pid, &st, WNOHANG) == k.pid) { k.dead = true; if (WIFEXITED(st) && (WEXITSTATUS(st) == 8 || WEXITSTATUS(st) == 9)) { vcrash_set_hook(NULL); r->inconclusive = 1; goto out; } } }
+			if (!k.dead) { int st; if (waitpid(k.pid, &st, WNOHANG) == k.pid) { k.dead = true;
+				/* whatever it wrote before it exited is in the pipe now: read it before judging */
+				for (;;) { ssize_t n2 = read(k.from_child, b, sizeof b); if (n2 <= 0) break; k.rep.append(b, (size_t)n2); }
+				if (k.rep.find("OK\n") != std::string::npos) k.connected = true;
+				{ size_t f2 = k.rep.find("F "); if (f2 != std::string::npos && k.rep.find('\n', f2) != std::string::npos) { k.reported_fail = true; k.reported_errno = atoi(k.rep.c_str() + f2 + 2); } } if (WIFEXITED(st) && (WEXITSTATUS(st) == 8 || WEXITSTATUS(st) == 9)) { vcrash_set_hook(NULL); r->inconclusive = 1; goto out; } } }
 			if (!done && !k.dead) all = false;
 		}
 		if (r->fail) break;
